@@ -465,8 +465,50 @@ func c01Start(cfg verifh.Cfg) (func(op []string) string, func()) {
 		get("")
 	}
 
+	pfSeq := 0
 	step := func(op []string) string {
 		name := ""
+		if named && op[0] == "parfirst" {
+			// concurrent FIRST use of a name (breakers.go GetBreaker): g goroutines, released together, look the same
+			// fresh name up and make k successful calls each through the package-level Do; r rounds with a new name each.
+			// Whatever the schedule, all of them must have been handed the one breaker of that name and that breaker must
+			// have recorded all g*k calls (a second breaker created by a racing first use would swallow some of them).
+			g, k, rounds := verifh.Atoi(c01KV(op[1], "g")), verifh.Atoi(c01KV(op[2], "k")), verifh.Atoi(c01KV(op[3], "r"))
+			maxDistinct, minRecorded := 0, int64(g*k)
+			for rd := 0; rd < rounds; rd++ {
+				pfSeq++
+				rn := fmt.Sprintf("c01-%d-parfirst-%d", sec, pfSeq)
+				got := make([]Breaker, g)
+				start := make(chan struct{})
+				var wg sync.WaitGroup
+				for i := 0; i < g; i++ {
+					wg.Add(1)
+					go func(i int) {
+						defer wg.Done()
+						<-start
+						got[i] = GetBreaker(rn)
+						for j := 0; j < k; j++ {
+							_ = Do(rn, func() error { return nil })
+						}
+					}(i)
+				}
+				close(start)
+				wg.Wait()
+				distinct := map[Breaker]bool{}
+				for _, b := range got {
+					distinct[b] = true
+				}
+				if len(distinct) > maxDistinct {
+					maxDistinct = len(distinct)
+				}
+				var sum int64
+				c01Unwrap(GetBreaker(rn)).stat.Reduce(func(b *bucket) { sum += b.Sum })
+				if sum < minRecorded {
+					minRecorded = sum
+				}
+			}
+			return fmt.Sprintf("calls=%d maxdistinct=%d minrecorded=%d", g*k, maxDistinct, minRecorded)
+		}
 		if named && op[0] != "t+" {
 			name = c01KV(op[len(op)-1], "name")
 			op = op[:len(op)-1]
@@ -896,6 +938,9 @@ func c01Gen(r *verifh.Rng) []verifh.Section {
 			g.names = []string{"a", "b", "c"}[:r.Range(2, 3)]
 			g.allowsBy = map[string]int{}
 			for j := 0; j < r.Range(30, verifh.Scale(80, 160)); j++ {
+				if j%16 == 3 {
+					g.ops = append(g.ops, fmt.Sprintf("parfirst g=%d k=%d r=%d", r.Range(2, 8), r.Range(1, 3), r.Range(4, 12)))
+				}
 				switch x := r.Intn(100); {
 				case x < 60:
 					g.call(g.outcome(r.Pick(70, 90)), g.draw())
